@@ -130,9 +130,27 @@ def hq(window):
     return False
 
 
+def hp(window, flavour):
+    """Path-id side in a same-path conflict: that side's user creates or deletes a path the other side's user also
+    operates on in the window (the engine may then act on a path id whose object the user has just replaced)."""
+    for side in (0, 1):
+        if flavour[side] != "p":
+            continue
+        mine = {op["path"] for op in window if op["side"] == side and op["op"] in ("create", "delete", "mkdir", "rmdir")}
+        theirs = set()
+        for op in window:
+            if op["side"] != side:
+                theirs.update(_paths(op))
+        if mine & theirs:
+            return True
+    return False
+
+
 def any_hazard(sched, flavour=None):
     hs = set()
     for w in windows(sched):
+        if flavour is not None and hp(w, flavour):
+            hs.add("HP")
         if hq(w):
             hs.add("HQ")
         if flavour is not None and hc(w, flavour):
